@@ -284,6 +284,49 @@ def path_conditions(func_node, target):
     return visit(func_node.body, [])
 
 
+def known_facts(func_node, target, total_order=True):
+    """Atomic tests known TRUE where `target` executes, as canonical strings: conjuncts of enclosing `if` tests, and - on an else path - the
+    negations of the disjuncts of the test (De Morgan), `not (a <= b)` read as `b < a` when total_order (lengths, sizes, indices)."""
+    from .model import negate
+    out = []
+
+    def atoms(t, truth):
+        if isinstance(t, ast.BoolOp):
+            if isinstance(t.op, ast.And) and truth or isinstance(t.op, ast.Or) and not truth:
+                for v in t.values:
+                    atoms(v, truth)
+            return
+        if isinstance(t, ast.UnaryOp) and isinstance(t.op, ast.Not):
+            atoms(t.operand, not truth)
+            return
+        if truth:
+            out.append(t)
+            return
+        if isinstance(t, ast.Compare) and len(t.ops) == 1 and isinstance(t.ops[0], (ast.Lt, ast.LtE, ast.Gt, ast.GtE)):
+            if not total_order:
+                return
+            a, b, o = t.left, t.comparators[0], t.ops[0]
+            # not (a < b) == b <= a ;  not (a <= b) == b < a ;  not (a > b) == a <= b ;  not (a >= b) == a < b
+            if isinstance(o, ast.Lt):
+                out.append(ast.Compare(left=b, ops=[ast.LtE()], comparators=[a]))
+            elif isinstance(o, ast.LtE):
+                out.append(ast.Compare(left=b, ops=[ast.Lt()], comparators=[a]))
+            elif isinstance(o, ast.Gt):
+                out.append(ast.Compare(left=a, ops=[ast.LtE()], comparators=[b]))
+            else:
+                out.append(ast.Compare(left=a, ops=[ast.Lt()], comparators=[b]))
+            return
+        out.append(negate(t))
+    for test, truth in path_conditions(func_node, target):
+        atoms(test, truth)
+    res = []
+    for a in out:
+        if isinstance(a, ast.Compare) and len(a.ops) == 1 and isinstance(a.ops[0], (ast.Gt, ast.GtE)):
+            a = ast.Compare(left=a.comparators[0], ops=[ast.Lt() if isinstance(a.ops[0], ast.Gt) else ast.LtE()], comparators=[a.left])
+        res.append(ast.unparse(ast.fix_missing_locations(a)).replace(" ", ""))
+    return res
+
+
 def expand_table_comprehension(func_node, comp):
     """[x for x, _ in TABLE] / (d for _, d in TABLE) with TABLE a local name bound once to a literal list of tuples -> the selected column
     as a list of AST nodes (None when the shape is anything else)."""
